@@ -8,6 +8,7 @@
       it from every role list
  R7.4 every designator container parameter of a public method is used through its elements, not only its size
  R7.7 the next free rank of a role is computed after the role was cleaned
+ R7.9 identifiers vs column indices of a Db (E5 kinds, rule K)
  R7.8 every column of a reduced data base (Db::resetReduce) depends on the list of selected samples
  R7.6 a role rank received as a parameter is compared with the length of the role list before it indexes it
  R7.5 the file-static scratch buffers of the Db sources are refilled before every read (no value carried over from the
@@ -398,6 +399,26 @@ def main(tier):
     r7_6(prog, chk)
     r7_7(prog, chk)
     r7_8(prog, chk)
+    # R7.9 (rule K): a column index never stands for a persistent identifier in a call of the Db API, nor the converse (uidkinds.py);
+    # every unit that asks a Db for a column index or a column count is analysed
+    import re as _re
+    import uidkinds
+    pat = _re.compile(r"getColIdx|getColumnNumber\s*\(\s*\)")
+    extra = []
+    for u in facts.all_units():
+        try:
+            if u not in units and pat.search(open(u, errors="replace").read()):
+                extra.append(u)
+        except OSError:
+            pass
+    if tier == "thorough":
+        extra = [u for u in facts.all_units() if u not in units]
+    kprog = Program().load_dir(extract(extra, "C07k-" + tier))
+    kprog.load_dir(d)
+    dh, _excl = facts.extract_headers("C07h-" + tier)
+    kprog.load_dir(dh)
+    chk.units += [u for u in kprog.units if u not in chk.units]
+    uidkinds.rule(kprog, chk, "R7.9", ("src/",), 60)
     # R7.5 no state carried from one call to the next through file-statics of the Db sources
     import c10
     c10.scratch_static_rule(prog, chk, ["src/Db/Db.cpp"], "R7.5", 1)
